@@ -774,7 +774,7 @@ func (d *Doc) legalRuns() [][2]int {
 // cutProject renders the document and cuts it into files. It returns the
 // un-cut single-file project and the cut multi-file project.
 // genStats counts what the cutter produced in this process (evidence).
-var genStats struct{ EmptyIncludes, Chains, MaxChain, Noise int }
+var genStats struct{ EmptyIncludes, Chains, MaxChain, Noise, NoFinalBreak int }
 
 func cutProject(d *Doc, r *rng, baseDir string, maxDepth int) (single, multi Project, ncuts int) {
 	text := d.Render()
@@ -963,6 +963,19 @@ func cutTextPref(text string, runs [][2]int, r *rng, baseDir string, maxDepth in
 				}
 			}
 			content := emitNamed(c.from, c.to, c.inner, cdir, cand)
+			// how the file begins and ends is not part of the run: no final line break, blank lines
+			// or a remark around it (a function of the text, so that identical runs stay one file)
+			switch hash64("edge"+content) % 12 {
+			case 0, 1, 2:
+				content = strings.TrimSuffix(content, nl)
+				genStats.NoFinalBreak++
+			case 3:
+				content += nl
+			case 4:
+				content = nl + content
+			case 5:
+				content = "# moved part" + nl + content
+			}
 			key := cdir + "\x00" + content
 			name, ok := byContent[key]
 			if !ok {
